@@ -2,7 +2,7 @@ SPECIFICATION Spec
 CONSTANTS
   MaxNodes = 4
   MinEmit = 4
-  Depths = {99, 1, 2}
+  Depths = {99, 1}
   Devs = {1, 2}
   RootMode = "first"
   MaxRoots = 2
